@@ -236,6 +236,28 @@ func (r *rw) rewriteFile() {
 			if r.isMap(n.X) {
 				r.uses = true
 				n.X = call(vrtSel("Ordered"), n.X)
+			} else if r.isChan(n.X) {
+				// for v := range ch { body }  =>  for { v, ok := ch.Recv2(); if !ok { break }; body }
+				okv := r.newTmp("ok")
+				var key ast.Expr = ast.NewIdent("_")
+				tok := token.DEFINE
+				if n.Key != nil {
+					key = n.Key
+					if n.Tok == token.ASSIGN {
+						// v already exists: declare ok separately
+						tok = token.ASSIGN
+					}
+				}
+				var pre []ast.Stmt
+				if tok == token.ASSIGN {
+					pre = append(pre, &ast.DeclStmt{Decl: &ast.GenDecl{Tok: token.VAR, Specs: []ast.Spec{&ast.ValueSpec{Names: []*ast.Ident{okv}, Type: ast.NewIdent("bool")}}}})
+				}
+				pre = append(pre,
+					&ast.AssignStmt{Lhs: []ast.Expr{key, okv}, Tok: tok, Rhs: []ast.Expr{method(n.X, "Recv2")}},
+					&ast.IfStmt{Cond: &ast.UnaryExpr{Op: token.NOT, X: okv}, Body: &ast.BlockStmt{List: []ast.Stmt{&ast.BranchStmt{Tok: token.BREAK}}}},
+				)
+				n.Body.List = append(pre, n.Body.List...)
+				c.Replace(&ast.ForStmt{For: n.For, Body: n.Body})
 			}
 		}
 		return true
